@@ -10,8 +10,11 @@ EPS = {"float64": 2.2e-16, "float32": 1.2e-7}
 DT = {"float64": torch.float64, "float32": torch.float32}
 
 
-def to_t(J: np.ndarray, dname: str) -> torch.Tensor:
-    return torch.tensor(J, dtype=torch.float64).to(DT[dname])
+def to_t(J: np.ndarray, dname: str, column_major: bool = False) -> torch.Tensor:
+    t = torch.tensor(J, dtype=torch.float64).to(DT[dname])
+    if column_major and t.ndim == 2:
+        t = t.t().contiguous().t()  # same values, non-contiguous (column-major) memory layout
+    return t
 
 
 def as64(t: torch.Tensor) -> np.ndarray:
